@@ -26,8 +26,17 @@ def panel_values(panel):
   out = []
   for g, (lv, am) in enumerate(zip(panel['level'], panel['amp'])):
     pat = lv * ((7 * g + 3 * d) % 11) / 8.0
-    v = lv * f + am * np.asarray(panel['noise'][g], float) / 512.0 + pat
-    out.append(np.maximum(0, np.round(v * 1024)) / 1024)
+    sign = panel.get('sign', [1] * len(panel['level']))[g]
+    fg = f if sign > 0 else (200.0 - f) + 100.0
+    v = lv * fg + am * np.asarray(panel['noise'][g], float) / 512.0 + pat
+    v = np.maximum(0, np.round(v * 1024)) / 1024
+    if panel.get('resp_int'):
+      v = np.round(v)
+    for fg_, ln in panel.get('flat', []):
+      if fg_ == g:
+        v = v.copy()
+        v[n_dates - ln:] = float(np.round(v[n_dates - ln]))
+    out.append(v)
   return out
 
 
@@ -60,7 +69,11 @@ def build_frame(panel, scale=1.0, rename=None, date_shift=0, permute=True, id_in
       rows_d.append(dates[di])
       rows_g.append(pid)
       rows_v.append(float(vals[gi][di]) * scale)
+  if panel.get('date_str'):
+    rows_d = [d.strftime('%Y-%m-%d') for d in rows_d]      # ISO strings sort chronologically
   df = pd.DataFrame({'date': rows_d, 'geo': rows_g, panel['resp_col']: rows_v})
+  if panel.get('resp_int') and scale == 1.0:
+    df[panel['resp_col']] = df[panel['resp_col']].astype('int64')
   if panel.get('extra_col'):
     df['unused'] = 1.5
   if permute and panel.get('perm_seed'):
@@ -87,8 +100,11 @@ def _tol(v):
   return float('inf') if v == 'inf' else v
 
 
-def _quantile_range(values, q, low_floor):
-  """Data-aware bound placement: midpoints between neighbouring attainable values (DESIGN 3.8-7)."""
+def _quantile_range(values, q, low_floor, edge=None):
+  """Data-aware bound placement: midpoints between neighbouring attainable values (DESIGN 3.8-7).
+
+  edge='near': each bound is instead placed 3e-6 (relative) *inside* an attainable value, i.e. that value is clearly
+  (3000 bands) outside the range yet within any sloppy 1e-5 tolerance."""
   vals = sorted(set(float(v) for v in values if v == v and not math.isinf(v)))
   if not vals:
     return None
@@ -101,6 +117,11 @@ def _quantile_range(values, q, low_floor):
   j = min(m - 1, int(q[1] * m))
   lo = (vals[i - 1] + vals[i]) / 2.0 if i > 0 else max(low_floor, vals[0] / 2.0)
   hi = (vals[j] + vals[j + 1]) / 2.0 if j < m - 1 else vals[-1] * 1.5
+  if edge == 'near':
+    if i > 0 and vals[i - 1] * (1 + 3e-6) < vals[i] * (1 - 3e-6):
+      lo = vals[i - 1] * (1 + 3e-6)
+    if j < m - 1 and vals[j + 1] * (1 - 3e-6) > vals[j] * (1 + 3e-6):
+      hi = vals[j + 1] * (1 - 3e-6)
   if not lo < hi:
     return None
   return (lo, hi)
@@ -162,13 +183,13 @@ def materialise(spec, scale=1.0, rename=None, date_shift=0, permute=True, id_int
   if not sp.reject and (p.get('share_q') is not None or p.get('budget_q') is not None):
     shares, budgets = sp.reference_values(scale)
     if p.get('share_q') is not None:
-      r = _quantile_range(shares, p['share_q'], 1e-6)
+      r = _quantile_range(shares, p['share_q'], 1e-6, p.get('edge'))
       if r is not None:
         lo, hi = max(r[0], 1e-6), min(r[1], 1 - 1e-6)
         if lo < hi:
           kw['treatment_share_range'] = (lo, hi)
     if p.get('budget_q') is not None:
-      r = _quantile_range(budgets, p['budget_q'], 0.0)
+      r = _quantile_range(budgets, p['budget_q'], 0.0, p.get('edge'))
       if r is not None and r[1] < float('inf'):
         kw['budget_range'] = (r[0], r[1])
     sp = Space(c.df, rows, kw, c.resp_col)
